@@ -148,6 +148,7 @@ class Scheduler(object):
     self.thread_errors = []
     self.state_hashes = set()
     self.preempt_filter = preempt_filter
+    self.line_watch = ()
     self.lock = _thread.allocate_lock()   # protects registry during thread bootstrap
 
   # ---- registry -------------------------------------------------------------
@@ -713,6 +714,8 @@ def _line_cb(code, lineno):
   s, me = current()
   if s is None or me is None or s.aborting:
     return None
+  if s.line_watch and code.co_name in s.line_watch:
+    s.events.append(('line', me.name, code.co_name, lineno, s.now))
   s.switch(me, 'L:%s:%d' % (code.co_name, lineno))
   s.deliver_async(me)
   return None
